@@ -14,6 +14,7 @@ fn main() {
         "c14n" => sv::c14n::main(&args[2..]),
         "sparql" => sv::sparql::main(&args[2..]),
         "rt" => sv::rt::main(&args[2..]),
+        "loader" => sv::loader::main(&args[2..]),
         _ => {
             eprintln!("unknown family {fam}");
             std::process::exit(2);
